@@ -6,6 +6,7 @@ import (
 	"math/rand"
 	"runtime/debug"
 	"strings"
+	"sync/atomic"
 	"time"
 
 	"github.com/btcsuite/btcwallet/waddrmgr"
@@ -366,6 +367,57 @@ func (x *run) step(op *Op) {
 				return
 			}
 		}
+	case cfg.C04 && op.Kind == "unlock" && !wasUnlocked && !w.WatchOnly && w.R.Intn(2) == 0:
+		// While the manager is being unlocked, another caller keeps trying to import a
+		// private key (each attempt in its own transaction).  The attempts are refused
+		// until the manager IS unlocked; the one that gets through afterwards is sealed
+		// under the real key.  What the file holds is judged by the image scan as usual
+		// (nothing may open under the wiped, all-zero key): the locked flag must never
+		// say "unlocked" before the keys are there.
+		imp := w.opImportPriv()
+		var stop, tries int32
+		var impOK bool
+
+		done := make(chan struct{})
+		if imp != nil {
+			go func() {
+				defer close(done)
+				for {
+					last := atomic.LoadInt32(&stop) == 1
+					atomic.AddInt32(&tries, 1)
+
+					e := w.Update(imp.Run)
+					if e == nil {
+						impOK = true
+						if !last {
+							x.st["c04-imports-accepted-before-the-unlock-returned"]++
+						}
+						return
+					}
+
+					if last {
+						return
+					}
+				}
+			}()
+			// the importer is already at it when the unlock starts
+			for i := 0; i < 2000 && atomic.LoadInt32(&tries) < 2; i++ {
+				time.Sleep(50 * time.Microsecond)
+			}
+		} else {
+			close(done)
+		}
+		// (in a read transaction, as the wallet does it: the importer's write
+		// transactions are not serialised behind it)
+		err = w.View(func(ns walletdb.ReadBucket) error { return w.M.Unlock(ns, append([]byte(nil), w.PrivPass...)) })
+		atomic.StoreInt32(&stop, 1)
+		<-done
+		if impOK && imp.Post != nil {
+			imp.Post()
+		}
+		x.st["c04-import-attempts-racing-an-unlock"] += int(atomic.LoadInt32(&tries))
+		x.st["c04-unlocks-raced-by-an-importer"]++
+		op.Name += fmt.Sprintf(" (raced by %d private-key import attempts; one got through: %v)", tries, impOK)
 	default:
 		err = x.exec(op)
 	}
